@@ -425,6 +425,11 @@ class AuthPolicy(object):
             self.pubkeys.append(h['payload'])
             if self.pubkey == 'accept':
                 return self._answer(dev, [wire.frame('CNXN', self.version, self.final_maxdata, self.banner)])
+            if self.pubkey == 'reauth':
+                # a fresh challenge first (the user has not confirmed yet), the CNXN once the key was accepted
+                return self._answer(dev, [self._challenge(dev), wire.frame('CNXN', self.version, self.final_maxdata, self.banner)])
+            if self.pubkey == 'reauth_only':
+                return self._answer(dev, [self._challenge(dev)])       # challenged again, never accepted
             return self._answer(dev, [])
         dev.env_note('AUTH type %d' % h['a0'])
         return []
